@@ -214,8 +214,6 @@ def run(pid, tier, seed):
                 if ("dump", a) in d and ("dump", b) in d:
                     ev.stat("copies-compared")
                     for key in DUMP_KEYS:
-                        if key == "objname" and proto.get(d[("dump", a)], key) == ["-"]:
-                            continue      # an unnamed objective: QScopy_prob gives the copy the generated default name
                         if proto.get(d[("dump", a)], key) != proto.get(d[("dump", b)], key):
                             rep.violation("the copy differs from the original right after QScopy_prob in %s: original %s, copy %s" %
                                           (key, str(proto.get(d[("dump", a)], key))[:200], str(proto.get(d[("dump", b)], key))[:200]), dict(ctx, at=cmd),
